@@ -48,17 +48,62 @@ struct Box
     bool operator==(const Box &o) const { return *p == *o.p; }
     bool operator!=(const Box &o) const { return *p != *o.p; }
     bool operator<(const Box &o) const { return *p < *o.p; }
+    bool operator>(const Box &o) const { return *p > *o.p; }
 };
 inline int unbox(int x) { return x; }
 inline int unbox(const Box &b) { return *b.p; }
+inline int unbox(const std::string &s) { return atoi(s.c_str()); }
 
-template <class Map, class Set, class Val, class Key> struct FlatOps
+// key of type K made from the integer of the op line (std::string keys: the decimal text)
+template <class K> struct MkKey
+{
+    static K of(int v) { return K(v); }
+};
+template <> struct MkKey<std::string>
+{
+    static std::string of(int v) { return std::to_string(v); }
+};
+
+// a comparator that is NOT equality-compatible: keys with the same last digit are equivalent
+// (a strict weak order that is not a linear order); C++ % truncates, -13 % 10 == -3
+struct ByLastDigit
+{
+    template <class A> bool operator()(const A &a, const A &b) const { return unbox(a) % 10 < unbox(b) % 10; }
+};
+
+// std::greater<std::string> on the decimal text, for key types that are not strings (the compat unit must
+// not instantiate igris::flat_set<std::string, …>: the hosted unit does, over the libstdc++ vector — ODR)
+struct TextGreater
+{
+    template <class A> bool operator()(const A &a, const A &b) const { return std::to_string(unbox(a)) > std::to_string(unbox(b)); }
+};
+
+// a STATEFUL comparator: the direction is a member, the default-constructed object orders ascending;
+// only `flat_set(const Compare &)` / `std::set(const Compare &)` can make a descending set of this type
+struct Dir
+{
+    bool desc = false;
+    Dir() {}
+    explicit Dir(bool d) : desc(d) {}
+    template <class A> bool operator()(const A &a, const A &b) const { return desc ? unbox(b) < unbox(a) : unbox(a) < unbox(b); }
+};
+
+struct FlatBase
+{
+    virtual ~FlatBase() {}
+    virtual std::string step(const std::string &line) = 0;
+};
+
+// MK = key type of the map, Key = key type of the set
+template <class Map, class Set, class Val, class Key, class MK = int> struct FlatOps : FlatBase
 {
     Map fm;
     Set fs;
-    using P = std::pair<int, Val>;
+    using P = std::pair<MK, Val>;
+    static MK mk(int v) { return MkKey<MK>::of(v); }
+    static Key sk(int v) { return MkKey<Key>::of(v); }
 
-    void reset()
+    virtual void reset()
     {
         fm = Map();
         fs = Set();
@@ -68,7 +113,7 @@ template <class Map, class Set, class Val, class Key> struct FlatOps
         std::pair<int, int> a[256];
         size_t n = 0;
         for (auto it = fm.begin(); it != fm.end() && n < 256; ++it)
-            a[n++] = {it->first, unbox(it->second)};
+            a[n++] = {unbox(it->first), unbox(it->second)};
         std::stable_sort(a, a + n, [](const std::pair<int, int> &x, const std::pair<int, int> &y) { return x.first < y.first; });
         std::string s = " m=" + std::to_string(fm.size()) + ":";
         for (size_t i = 0; i < n; i++)
@@ -86,7 +131,7 @@ template <class Map, class Set, class Val, class Key> struct FlatOps
             s += "-";
         return s;
     }
-    std::string step(const std::string &line)
+    std::string step(const std::string &line) override
     {
         char opb[32] = {0};
         int a[9] = {0};
@@ -98,36 +143,36 @@ template <class Map, class Set, class Val, class Key> struct FlatOps
             return "ok";
         }
         if (op == "mset")
-            fm[a[1]] = Val(a[2]);
+            fm[mk(a[1])] = Val(a[2]);
         else if (op == "mget")
-            ret = std::to_string(unbox(fm[a[1]]));
+            ret = std::to_string(unbox(fm[mk(a[1])]));
         else if (op == "mins")
         {
-            auto it = fm.insert(P(a[1], Val(a[2])));
-            ret = std::to_string(it->first) + ">" + std::to_string(unbox(it->second));
+            auto it = fm.insert(P(mk(a[1]), Val(a[2])));
+            ret = std::to_string(unbox(it->first)) + ">" + std::to_string(unbox(it->second));
         }
         else if (op == "mempl")
         {
-            auto p = fm.emplace(a[1], a[2]);
+            auto p = fm.emplace(mk(a[1]), a[2]);
             ret = std::to_string(p.second) + "," + std::to_string(unbox(p.first->second));
         }
         else if (op == "mfind")
         {
-            auto it = fm.find(a[1]);
+            auto it = fm.find(mk(a[1]));
             const Map &cf = fm;
-            auto it2 = cf.find(a[1]);
+            auto it2 = cf.find(mk(a[1]));
             ret = it == fm.end() ? "end" : std::to_string(unbox(it->second));
             if ((it == fm.end()) != (it2 == cf.end()))
                 ret += "!const";
         }
         else if (op == "mcount")
-            ret = std::to_string(fm.count(a[1]));
+            ret = std::to_string(fm.count(mk(a[1])));
         else if (op == "mat")
         {
             const Map &cf = fm;
             std::string r2;
-            try { ret = std::to_string(unbox(fm.at(a[1]))); } catch (const std::out_of_range &) { ret = "throw"; }
-            try { r2 = std::to_string(unbox(cf.at(a[1]))); } catch (const std::out_of_range &) { r2 = "throw"; }
+            try { ret = std::to_string(unbox(fm.at(mk(a[1])))); } catch (const std::out_of_range &) { ret = "throw"; }
+            try { r2 = std::to_string(unbox(cf.at(mk(a[1])))); } catch (const std::out_of_range &) { r2 = "throw"; }
             if (r2 != ret)
                 ret += "!const";
         }
@@ -139,10 +184,10 @@ template <class Map, class Set, class Val, class Key> struct FlatOps
             switch (n)
             {
             case 0: fm = Map(std::initializer_list<P>{}); break;
-            case 1: fm = Map({P(a[1], Val(a[2]))}); break;
-            case 2: fm = Map({P(a[1], Val(a[2])), P(a[3], Val(a[4]))}); break;
-            case 3: fm = Map({P(a[1], Val(a[2])), P(a[3], Val(a[4])), P(a[5], Val(a[6]))}); break;
-            default: fm = Map({P(a[1], Val(a[2])), P(a[3], Val(a[4])), P(a[5], Val(a[6])), P(a[7], Val(a[8]))}); break;
+            case 1: fm = Map({P(mk(a[1]), Val(a[2]))}); break;
+            case 2: fm = Map({P(mk(a[1]), Val(a[2])), P(mk(a[3]), Val(a[4]))}); break;
+            case 3: fm = Map({P(mk(a[1]), Val(a[2])), P(mk(a[3]), Val(a[4])), P(mk(a[5]), Val(a[6]))}); break;
+            default: fm = Map({P(mk(a[1]), Val(a[2])), P(mk(a[3]), Val(a[4])), P(mk(a[5]), Val(a[6])), P(mk(a[7]), Val(a[8]))}); break;
             }
         }
         else if (op == "mcopy")
@@ -155,11 +200,24 @@ template <class Map, class Set, class Val, class Key> struct FlatOps
             fm = std::move(e);
         }
         else if (op == "sins")
-            fs.insert(Key(a[1]));
+            fs.insert(sk(a[1]));
         else if (op == "scount")
-            ret = std::to_string(fs.count(Key(a[1])));
+            ret = std::to_string(fs.count(sk(a[1])));
         else if (op == "sclear")
             fs.clear();
+        else if (op == "msize")
+            ret = std::to_string(fm.size());
+        else if (op == "ssize")
+            ret = std::to_string(fs.size());
+        else if (op == "siter")
+        {
+            // for (it = begin(); it != end(); ++it)
+            ret = "";
+            for (auto it = fs.begin(); it != fs.end(); ++it)
+                ret += (ret.empty() ? "" : ",") + std::to_string(unbox(*it));
+            if (ret.empty())
+                ret = "-";
+        }
         else
             return "bad-op";
         return ret + dump();
